@@ -10,6 +10,14 @@
 //   delete <k> | forceid | set <k> type|def|touch | reopen rw|ro
 //   xcreate <t> <e> block|section <n> <name>*n   another process (started at second t) opens the file
 //                                                read-write, creates top-level entities and closes
+//   xfork <t> <e> block|section <n> <name>*n     like xcreate, but the other process is a child FORKED (no exec) by
+//                                                the process that has the file open, i.e. after its id generator
+//                                                was initialised (t, e: what a re-seeding library would see)
+//   forks <N> <K>                                fork-after-init experiment on separate files (real clock): a process
+//                                                draws 2 ids, forks N children; every child creates an own file with K
+//                                                blocks and calls util::createId twice, the parent creates K more
+//                                                blocks; all ids come back through pipes.  Answer:
+//                                                OK forks=N k=K wellformed=<0|1> common=<0|1>
 //   procs <k> <n>                                the runtime experiment (real clock): k processes started
 //                                                together, n ids each; only used to replay a finding
 // Answer to every line:  OK <res> F<w><s> <k>:<w><s>... d=<0|1>
@@ -311,6 +319,26 @@ static int spawn_wait(const std::vector<std::string> &args) {
     return WIFEXITED(status) ? WEXITSTATUS(status) : 128;
 }
 
+// what another process does with the file: open read-write, create top-level entities, close, report which worked
+static int other_process_work(const std::string &fpath, Kind k, const std::vector<std::string> &names, const std::string &outpath) {
+    std::string flags;
+    try {
+        nix::File f = nix::File::open(fpath, nix::FileMode::ReadWrite);
+        for (const std::string &nm : names) {
+            bool ok = true;
+            try {
+                if (k == KBlock) f.createBlock(nm, "t"); else f.createSection(nm, "t");
+            } catch (...) { ok = false; }
+            flags.push_back(ok ? '1' : '0');
+        }
+        f.close();
+    } catch (...) { return 3; }
+    std::ofstream out(outpath);
+    out << flags << "\n";
+    out.close();
+    return 0;
+}
+
 static std::string handle(const std::vector<std::string> &t) {
     const std::string &c = t[0];
     if (c == "new") {
@@ -371,7 +399,7 @@ static std::string handle(const std::vector<std::string> &t) {
         reopen(t.at(1) == "rw");
         return "ok " + observe();
     }
-    if (c == "xcreate") {
+    if (c == "xcreate" || c == "xfork") {
         Kind k = parse_kind(t.at(3));
         size_t n = static_cast<size_t>(dec_u64(t.at(4)));
         if (t.size() != 5 + n) throw std::logic_error("bad name count");
@@ -383,7 +411,21 @@ static std::string handle(const std::vector<std::string> &t) {
         drop_handles();
         file.close();
         file = nix::none;
-        int rc = spawn_wait(args);
+        int rc;
+        if (c == "xcreate") rc = spawn_wait(args);
+        else {
+            // fork without exec: the child is a copy of this process, generator state included
+            std::cout << std::flush;
+            pid_t pid = fork();
+            if (pid < 0) throw std::logic_error("fork failed");
+            if (pid == 0) {
+                vclock = dec_int(t.at(1));
+                _exit(other_process_work(path, k, names, workdir + "/child.out"));
+            }
+            int status = 0;
+            while (waitpid(pid, &status, 0) < 0) {}
+            rc = WIFEXITED(status) ? WEXITSTATUS(status) : 128;
+        }
         std::string flags;
         { std::ifstream in(workdir + "/child.out"); std::getline(in, flags); }
         if (rc != 0 || flags.size() != n) throw std::logic_error("child process failed");
@@ -408,22 +450,9 @@ static std::string handle(const std::vector<std::string> &t) {
 static int child_main(int argc, char **argv) {
     if (argc < 6) return 2;
     vclock = std::stoll(argv[3]);
-    Kind k = parse_kind(argv[4]);
-    std::string flags;
-    try {
-        nix::File f = nix::File::open(argv[2], nix::FileMode::ReadWrite);
-        for (int i = 6; i < argc; i++) {
-            bool ok = true;
-            try {
-                if (k == KBlock) f.createBlock(dec_str(argv[i]), "t"); else f.createSection(dec_str(argv[i]), "t");
-            } catch (...) { ok = false; }
-            flags.push_back(ok ? '1' : '0');
-        }
-        f.close();
-    } catch (...) { return 3; }
-    std::ofstream out(argv[5]);
-    out << flags << "\n";
-    return 0;
+    std::vector<std::string> names;
+    for (int i = 6; i < argc; i++) names.push_back(dec_str(argv[i]));
+    return other_process_work(argv[2], parse_kind(argv[4]), names, argv[5]);
 }
 
 // --genids <n> <dir>: the runtime experiment, real clock: n ids through the public API on an own file
@@ -490,6 +519,82 @@ static std::string procs(long k, long n) {
     return o.str();
 }
 
+// forks <N> <K>, run in a process forked from the pristine driver: draw ids, THEN fork
+static void write_all(int fd, const std::string &s) {
+    size_t off = 0;
+    while (off < s.size()) { ssize_t w = write(fd, s.data() + off, s.size() - off); if (w <= 0) break; off += static_cast<size_t>(w); }
+}
+static std::string read_all(int fd) {
+    std::string s; char buf[4096]; ssize_t r;
+    while ((r = read(fd, buf, sizeof buf)) > 0) s.append(buf, static_cast<size_t>(r));
+    return s;
+}
+static std::string forks_experiment(long N, long K) {
+    if (N < 1 || N > 64 || K < 0 || K > 1200) throw std::logic_error("bad forks arguments");
+    vclock = -1;
+    std::string dir = workdir + "/forks";
+    mkdir(dir.c_str(), 0700);
+    std::vector<std::string> mine;
+    {   // the generator is initialised here: the file's id and one block
+        nix::File f = nix::File::open(dir + "/parent.nix", nix::FileMode::Overwrite);
+        mine.push_back(f.id());
+        mine.push_back(f.createBlock("pre", "t").id());
+        f.close();
+    }
+    std::vector<pid_t> pids; std::vector<int> fds;
+    for (long i = 0; i < N; i++) {
+        int pp[2];
+        if (pipe(pp) != 0) throw std::logic_error("pipe failed");
+        pid_t pid = fork();
+        if (pid < 0) throw std::logic_error("fork failed");
+        if (pid == 0) {
+            close(pp[0]);
+            for (int fd : fds) close(fd);
+            std::string out;
+            try {
+                nix::File f = nix::File::open(dir + "/child" + std::to_string(i) + ".nix", nix::FileMode::Overwrite);
+                out += f.id() + "\n";
+                for (long j = 0; j < K; j++) out += f.createBlock("b" + std::to_string(j), "t").id() + "\n";
+                f.close();
+                out += nix::util::createId() + "\n";
+                out += nix::util::createId() + "\n";
+            } catch (...) { out += "FAILED\n"; }
+            write_all(pp[1], out);
+            close(pp[1]);
+            _exit(0);
+        }
+        close(pp[1]);
+        pids.push_back(pid); fds.push_back(pp[0]);
+    }
+    {
+        nix::File f = nix::File::open(dir + "/parent.nix", nix::FileMode::ReadWrite);
+        for (long j = 0; j < K; j++) mine.push_back(f.createBlock("p" + std::to_string(j), "t").id());
+        f.close();
+    }
+    std::map<std::string, int> seen;
+    int wf = 1, common = 0, failed = 0;
+    auto take = [&](const std::string &id) {
+        if (id == "FAILED") { failed = 1; return; }
+        if (!wellformed(id)) wf = 0;
+        if (seen[id]++) common = 1;
+    };
+    for (const std::string &id : mine) take(id);
+    for (size_t i = 0; i < fds.size(); i++) {
+        std::string all = read_all(fds[i]);
+        close(fds[i]);
+        int st; while (waitpid(pids[i], &st, 0) < 0) {}
+        if (!WIFEXITED(st) || WEXITSTATUS(st) != 0) failed = 1;
+        std::istringstream in(all);
+        std::string id; long cnt = 0;
+        while (std::getline(in, id)) if (!id.empty()) { take(id); cnt++; }
+        if (cnt != K + 3) failed = 1;
+    }
+    if (failed) throw std::logic_error("a forked child failed");
+    std::ostringstream o;
+    o << "forks=" << N << " k=" << K << " wellformed=" << wf << " common=" << common;
+    return o.str();
+}
+
 // ---------------------------------------------------------------------------------------------
 // worker: one per case, forked before any id was drawn
 static int worker_loop(int rfd, int wfd) {
@@ -540,6 +645,27 @@ int main(int argc, char **argv) {
         if (t[0] == "procs") {
             try { out = "OK " + procs(dec_int(t.at(1)), dec_int(t.at(2))); } catch (...) { out = "ERR " + classify(); }
             std::cout << n << " " << out << "\n" << std::flush;
+            continue;
+        }
+        if (t[0] == "forks") {
+            // in a process of its own, so that this one never initialises its id generator
+            int pp[2];
+            if (pipe(pp) != 0) { std::cerr << "pipe failed\n"; return 2; }
+            std::cout << std::flush;
+            pid_t pid = fork();
+            if (pid == 0) {
+                close(pp[0]);
+                std::string res;
+                try { res = "OK " + forks_experiment(dec_int(t.at(1)), dec_int(t.at(2))); } catch (...) { res = "ERR " + classify(); }
+                write_all(pp[1], res);
+                _exit(0);
+            }
+            close(pp[1]);
+            std::string res = read_all(pp[0]);
+            close(pp[0]);
+            int st = 0; while (waitpid(pid, &st, 0) < 0) {}
+            if (res.empty()) { std::cout << std::flush; return WIFEXITED(st) && WEXITSTATUS(st) ? WEXITSTATUS(st) : 99; }
+            std::cout << n << " " << res << "\n" << std::flush;
             continue;
         }
         if (t[0] == "new") {
